@@ -544,6 +544,10 @@ pub enum Fail {
     /// a clash that only the type checker notices: a dimension or struct defined twice, a
     /// variable named like a function, a function named like a variable (prelude or session names)
     CheckerNameClash(u8),
+    /// a type error in an input that mentions a currency unit: with on-demand loading of the
+    /// currency module (the CLI's default; C06 switches it on for sessions that contain this kind)
+    /// the module is loaded and stays loaded, and the input fails on the second attempt
+    CurrencyOnDemand(u8),
 }
 
 pub fn fail_strategy() -> impl Strategy<Value = Fail> {
@@ -567,6 +571,7 @@ pub fn fail_strategy() -> impl Strategy<Value = Fail> {
         (0u8..30).prop_map(Fail::SessionNameClash),
         (0u8..36).prop_map(Fail::CheckerNameClash),
         (0u8..36).prop_map(Fail::CheckerNameClash),
+        (0u8..4).prop_map(Fail::CurrencyOnDemand),
     ]
 }
 
@@ -611,6 +616,12 @@ pub fn render_fail(f: Fail, env: &mut Env) -> (String, &'static str) {
                 _ => (!env.vars.is_empty()).then(|| format!("fn {}() = 3", env.vars[pick % env.vars.len()].0)),
             };
             (text.unwrap_or_else(|| "dimension Energy".into()), "name")
+        }
+        Fail::CurrencyOnDemand(k) => {
+            if !env.modules.iter().any(|m| m == "units::currencies") {
+                env.modules.push("units::currencies".to_string());
+            }
+            (["let zz_bad = 2 USD + 1 m", "let zz_bad: Length = 3 JPY", "2 dollars + 1 s", "let zz_bad = sqrt(4 GBP) + 1"][k as usize % 4].to_string(), "type")
         }
         Fail::ExprRuntime(k) => (["2 * (1 / 0)", "error(\"boom\")", "4 km / (2 m - 200 cm) * 0 + 1 / 0"][k as usize % 3].to_string(), "runtime"),
     }
